@@ -50,7 +50,7 @@ func run(c *core.Ctx) error {
 	dates := startDates(th, c.Rand)
 	arith := &instance{
 		dates:      dates,
-		stamps:     startStamps(th, []int{0}, c.Rand),
+		stamps:     startStamps(th, []int{0, 0, 0, 120, -330}, c.Rand),
 		daySpans:   signed(append([]int{7, 106751, 106752}, mags...)...),
 		monthSpans: signed(append([]int{11, 12, 13}, mags...)...),
 		yearSpans:  signed(mags...),
@@ -105,6 +105,12 @@ func run(c *core.Ctx) error {
 	c.Cov("by_operation", ta.byOp)
 	c.Cov("spec", "spec/Calendar/Calendar.tla + Calendar.cfg (TypeOK CalendarBijection ArithmeticExact DifferenceLaw RoundTripLaw SpanComponentsLaw on every reachable value)")
 	c.Logf("compared=%d agree=%d known-deviation=%d violations=%d", ta.compared, ta.agree, ta.known, c.Violations())
+	for _, op := range []string{"add_days", "sub_days", "add_days_dyn", "sub_days_dyn", "add_months", "sub_months", "add_years", "sub_years",
+		"add_clock", "sub_clock", "diff_add", "rt_to_string", "rt_format", "rt_span"} {
+		if ta.byOp[op] == 0 {
+			return core.Inconclusivef("vacuous: no %s operation was generated and compared", op)
+		}
+	}
 	if ta.agree == 0 {
 		return core.Inconclusivef("nothing agreed with the real code: the binding is broken")
 	}
